@@ -339,3 +339,66 @@ def c01_1i(cx):
     a = cx.args(full)
     cx.check(a[1] == "$2" and a[2] == "$4" and a[3] == "$3", "the full report forwards (index, durability, current_revision)", full, {"args": a}, key="forward-full")
     cx.flow(h, cx.arg(rev, 1), [r"^\$3$"], [], "the revision-only report forwards current_revision", rev)
+
+
+@ob("C07.2", ["C07", "C09", "C23"], "a recycled interned slot that keeps the memos (or the id) of the previous value serves results computed for the old data to the new handle", kind="MUSTCALL+FLOW (slot recycling protocol)")
+def c07_2(cx):
+    """intern_id reuse path: the new fields are assembled with slot.new_id; the stale entry is removed from the key map under the OLD fields' hash (computed before the fields are replaced) and re-inserted under the new key's hash; metadata.id := slot.new_id, durability := the interning query's; clear_memos(zalsa, &mut value.memos, slot.old_id) is reached on every path after the fields were replaced; the id returned is slot.new_id. clear_memos::inner takes every memo out of the table, raising DidDiscard and removing its outputs under (memo ingredient, id), and drops the table through a guard."""
+    b = cx.fn(IN + r"intern_id$")
+    slot = r"find_reusable_slot\(.*\)@Some\.0\.0"
+    val = r"find_reusable_slot\(.*\)@Some\.0\.1"
+    rp = cx.one_call(b, r"^std::mem::replace$", "fields replacement in the reuse path")
+    ra = cx.args(rp)
+    cx.flow(b, ra[0], [val + r"\.fields$"], [], "the fields replaced are the recycled slot's", rp)
+    cx.flow(b, ra[1], [r"^interned::IngredientImpl::<C>::to_internal_data\(\$1, <\w+ as std::ops::FnOnce>::call_once\(\$5, tuple\{0: .*" + slot + r"\.new_id, 1: \$4\}\)\)$"], [r"\.old_id, 1: \$4"], "the new fields are assembled under the NEW id", rp)
+    cm = cx.one_call(b, IN + r"clear_memos$", "clear_memos in the reuse path")
+    ca = cx.args(cm)
+    cx.check(ca[0] == "$1" and ca[1] == "$2", "clear_memos runs against this ingredient and database", cm, key="cm-self")
+    cx.flow(b, ca[2], [val + r"\.memos$"], [], "the memo table cleared is the recycled slot's", cm)
+    cx.flow(b, ca[3], [slot + r"\.old_id$"], [slot + r"\.new_id$"], "memos are discarded under the OLD id (the identity they were computed for)", cm)
+    reach = b.reachable(rp.bb, "normal", cut_blocks={cm.bb})
+    bad = [r for r in b.return_blocks() if r in reach]
+    cx.check(not bad, "once the fields are replaced every path clears the old memos before returning", cm, key="cm-always")
+    md = [x for x in cx.stores(b) if re.search(val + r"\.lru\.metadata$", x[1])]
+    cx.sites(md, 1, "metadata overwrite in the reuse path")
+    for s, po, vo in md:
+        cx.flow(b, vo, [r"^EntryMetadata\{id: .*" + slot + r"\.new_id, last_interned_at: "], [r"id: .*\.old_id,"], "the slot's id becomes slot.new_id", s)
+    rets = [(site, b._origin_def(site, kind, node, 0, None, ())) for site, kind, node in _value_defs(b, 0)]
+    reuse_ret = [(s, o) for s, o in rets if b.reaches(rp, s)]
+    cx.sites(reuse_ret, 1, "return of the reuse path")
+    for s, o in reuse_ret:
+        cx.flow(b, o, [slot + r"\.new_id$"], [r"\.old_id$"], "the id handed out for the recycled slot is the new generation", s)
+    fe = cx.one_call(b, r"^hashbrown::HashTable::<T, A>::find_entry$", "stale key-map entry lookup")
+    fa = cx.args(fe)
+    cx.flow(b, fa[1], [r"^<FxBuildHasher as std::hash::BuildHasher>::hash_one\(\$1\.hasher, .*" + val + r"\.fields\)$"], [r"hash_one\(\$1\.hasher, \$4\)$"], "the stale entry is looked up under the OLD fields' hash", fe)
+    oh = [s for s in b.calls(r"BuildHasher::hash_one$") if re.search(val + r"\.fields$", cx.arg(s, 1))]
+    cx.sites(oh, 1, "hash of the old fields")
+    cx.order(oh[0], rp, "the old hash is computed before the fields are replaced")
+    rm = [s for s in b.calls(r"OccupiedEntry::<'a, T, A>::remove$") if b.reaches(fe, s)]
+    cx.sites(rm, 1, "removal of the stale entry")
+    iu = [s for s in b.calls(r"^hashbrown::HashTable::<T, A>::insert_unique$")]
+    cx.sites(iu, 1, "re-insert under the new hash")
+    for s in iu:
+        cx.flow(b, cx.arg(s, 1), [r"^<FxBuildHasher as std::hash::BuildHasher>::hash_one\(\$1\.hasher, \$4\)$"], [val + r"\.fields"], "the recycled slot is re-inserted under the new key's hash", s)
+        cx.flow(b, cx.arg(s, 2), [r"^interned::ValueKey::new\(.*" + val + r"\)$"], [], "the entry re-inserted is the recycled slot", s)
+        cx.order(rm[0], s, "remove-then-insert")
+        reach = b.reachable(rm[0].bb, "normal", cut_blocks={s.bb})
+        cx.check(not [r for r in b.return_blocks() if r in reach], "after the stale entry is removed every path re-inserts the slot", s, key="reinsert-always")
+    ci = cx.fn(IN + r"clear_memos::inner$")
+    tk = cx.one_call(ci, r"take_memos", "take_memos in clear_memos")
+    cb = cx.closure_passed_to(ci, r"take_memos")
+    rmo = cx.one_call(cb, r"remove_outputs$", "remove_outputs per memo")
+    cx.flow(cb, cx.arg(rmo, 2), [r"^key::DatabaseKeyIndex::new\(zalsa::Zalsa::ingredient_index_for_memo\(\$1\.\d+, \$1\.\d+, \$2\), \$1\.\d+\)$"], [], "outputs are removed under (the memo's function ingredient, the old id)", rmo)
+    cx.check(cx.facts.must_call(cb, r"remove_outputs$"), "every memo taken has its outputs removed", rmo, key="rm-outputs-always")
+    g = cx.facts.drop_impl(r"clear_memos::inner::TableDropGuard")
+    cx.require(g is not None, "TableDropGuard has a Drop impl")
+    cx.check(bool(g.calls(r"MemoTableWithTypesMut::<'.*>::drop$|MemoTableWithTypesMut.*::drop$")), "the guard frees the memo table (also on unwind)", body=g, key="guard-drops")
+    c0 = cx.fn(IN + r"clear_memos$")
+    ic = cx.one_call(c0, IN + r"clear_memos::inner$", "delegation")
+    a = cx.args(ic)
+    cx.check(a[0] == "$2" and a[3] == "$3" and a[4] == "$4" and a[1] == "$1.ingredient_index", "clear_memos forwards (zalsa, own ingredient index, table, id)", ic, {"args": a}, key="cm-forward")
+
+
+def _value_defs(b, l):
+    from .c01_reuse import value_defs
+    return value_defs(b, l)
